@@ -6,9 +6,6 @@ import OG.C17.Lemmas.Query
 namespace OG.C17
 open OG.Gen.C17 (entrySize unit32Size clearCurOff clearCurLen clearRotOff clearRotLen needRotate nextOffset)
 
-/-- a payload that fits an otherwise empty file (else `AddEntries` rotates an empty file away) -/
-def Entry.Fits (p : Params) (e : Entry) : Prop := p.dataOff + 4 + e.data.size ≤ p.maxSize
-
 /-- `LogRep` while `AddEntries` runs: the current file may be momentarily empty -/
 structure LogRepW (p : Params) (s : State) (a : Nat) (ess : List (List Entry)) (ec : List Entry) : Prop where
   chain : Chain p a s.files ess
@@ -32,13 +29,15 @@ theorem LogRepW.strengthen (r : LogRepW p s a ess ec) (h : ec = [] → ess = [])
 /-! ### the generated expressions, over naturals -/
 
 theorem needRotate_nat (p : Params) (n o l : Nat) :
-    needRotate p (n : Int) (o : Int) (l : Int) = (decide (n ≥ p.cap) || decide (o + 4 + l > p.maxSize)) := by
+    needRotate p (n : Int) (o : Int) (l : Int) = (decide (n ≥ p.cap) || (decide (n > 0) && decide (o + 4 + l > p.maxSize))) := by
   simp only [needRotate, unit32Size]
   congr 1
   · simp
-  · have : ((o : Int) + ((4 : Nat) : Int) + (l : Int) > (p.maxSize : Int)) ↔ (o + 4 + l > p.maxSize) := by
-      constructor <;> intro h <;> omega
-    exact decide_eq_decide.mpr this
+  · congr 1
+    · simp
+    · have : ((o : Int) + ((4 : Nat) : Int) + (l : Int) > (p.maxSize : Int)) ↔ (o + 4 + l > p.maxSize) := by
+        constructor <;> intro h <;> omega
+      exact decide_eq_decide.mpr this
 
 theorem nextOffset_nat (o l : Nat) : (nextOffset (o : Int) (l : Int)).toNat = o + 4 + l := by
   simp only [nextOffset, unit32Size]; omega
@@ -112,7 +111,7 @@ theorem LogRepW.rotate_ok (hp : p.WF) (r : LogRepW p s a ess ec) (hne : ec ≠ [
 /-! ### the write loop -/
 
 /-- the optional rotation before an entry is written -/
-theorem LogRepW.pre_write (hp : p.WF) (r : LogRepW p s a ess ec) (re : Entry) (hok : re.OK) (hfit : re.Fits p) :
+theorem LogRepW.pre_write (hp : p.WF) (r : LogRepW p s a ess ec) (re : Entry) (hok : re.OK) :
     ∃ s1 ess1 ec1,
       (if needRotate p s.next ((p.dataOff + total ec : Nat) : Int) re.data.size then
           (({ rotate p s (p.dataOff + total ec) with next := 0 } : State), p.dataOff)
@@ -120,18 +119,26 @@ theorem LogRepW.pre_write (hp : p.WF) (r : LogRepW p s a ess ec) (re : Entry) (h
       LogRepW p s1 a ess1 ec1 ∧ ess1.flatten ++ ec1 = ess.flatten ++ ec ∧ ec1.length < p.cap ∧
       p.dataOff + total ec1 + 4 + re.data.size < 18446744073709551616 := by
   rw [r.next_eq, needRotate_nat]
-  by_cases hrot : (decide (ec.length ≥ p.cap) || decide (p.dataOff + total ec + 4 + re.data.size > p.maxSize)) = true
+  by_cases hrot : (decide (ec.length ≥ p.cap) || (decide (ec.length > 0) && decide (p.dataOff + total ec + 4 + re.data.size > p.maxSize))) = true
   · have hne : ec ≠ [] := by
       intro h; subst h
       have h1 := hp.cap_pos
-      have h2 : p.dataOff + 4 + re.data.size ≤ p.maxSize := hfit
-      simp [total] at hrot; omega
+      simp at hrot; omega
     refine ⟨_, ess ++ [ec], [], ?_, r.rotate_ok hp hne, by simp, by have := hp.cap_pos; simp; omega, ?_⟩
     · rw [if_pos hrot]; simp [total]
     · have := hp.dataOff_lt; have := hok.size_lt; simp [total]; omega
   · refine ⟨s, ess, ec, by rw [if_neg hrot], r, rfl, ?_, ?_⟩
     · simp at hrot; omega
-    · have := hp.maxSize_lt; simp at hrot; omega
+    · -- not rotating: either the record fits below maxSize, or the file is empty and holds only this record
+      have h1 := hp.maxSize_lt
+      have h2 := hp.dataOff_lt
+      have h3 := hok.size_lt
+      simp at hrot
+      by_cases he : ec.length > 0
+      · have := hrot.2 he; omega
+      · have : ec = [] := List.eq_nil_of_length_eq_zero (by omega)
+        subst this
+        simp [total]; omega
 
 /-- writing one entry into the current file -/
 theorem LogRepW.write (r : LogRepW p s a ess ec) (re : Entry) (hok : re.OK) (hlen : ec.length < p.cap)
@@ -148,7 +155,7 @@ theorem LogRepW.write (r : LogRepW p s a ess ec) (re : Entry) (hok : re.OK) (hle
 
 theorem LogRepW.add_loop (hp : p.WF) :
     ∀ (new : List Entry) (s : State) (ess : List (List Entry)) (ec : List Entry),
-      LogRepW p s a ess ec → (∀ e ∈ new, e.OK ∧ e.Fits p) → Seq (a + ess.flatten.length + ec.length) new →
+      LogRepW p s a ess ec → (∀ e ∈ new, e.OK) → Seq (a + ess.flatten.length + ec.length) new →
       ∃ ess' ec', LogRepW p (addLoop p new s (p.dataOff + total ec)) a ess' ec' ∧
         ess'.flatten ++ ec' = ess.flatten ++ ec ++ new ∧ (ec ≠ [] ∨ new ≠ [] → ec' ≠ []) ∧ (new = [] → ess' = ess ∧ ec' = ec) := by
   intro new
@@ -162,13 +169,13 @@ theorem LogRepW.add_loop (hp : p.WF) :
     have hidx : re.index = a + ess.flatten.length + ec.length := by
       have := hseq 0 (by simp)
       simp only [List.getElem_cons_zero] at this; omega
-    obtain ⟨s1, ess1, ec1, heq, r1, hall, hlen, hend⟩ := r.pre_write hp re hre.1 hre.2
+    obtain ⟨s1, ess1, ec1, heq, r1, hall, hlen, hend⟩ := r.pre_write hp re hre
     simp only [addLoop]
     rw [heq]
     simp only
     have hfl : ess1.flatten.length + ec1.length = ess.flatten.length + ec.length := by
       have := congrArg List.length hall; simpa using this
-    have r2 := r1.write re hre.1 hlen hend (by omega)
+    have r2 := r1.write re hre hlen hend (by omega)
     have hno : (nextOffset ((p.dataOff + total ec1 : Nat) : Int) (re.data.size : Int)).toNat = p.dataOff + total (ec1 ++ [re]) := by
       rw [nextOffset_nat, total_append]; simp [total, recLen]; omega
     rw [hno]
@@ -286,7 +293,7 @@ theorem LogRep.conflict_ok (hp : p.WF) (r : LogRep p s a ess ec) (idx : Nat) (hn
 
 /-- `AddEntries` = the spec's append (non-empty log) -/
 theorem LogRep.add_entries (hp : p.WF) (r : LogRep p s a ess ec) (e0 : Entry) (rest : List Entry)
-    (hok : ∀ e ∈ e0 :: rest, e.OK ∧ e.Fits p) (hseq : Seq e0.index (e0 :: rest))
+    (hok : ∀ e ∈ e0 :: rest, e.OK) (hseq : Seq e0.index (e0 :: rest))
     (hne : ess.flatten ++ ec ≠ []) (h1 : a ≤ e0.index) (h2 : e0.index ≤ a + (ess.flatten ++ ec).length) :
     ∃ ess' ec', LogRep p (addEntries p s (e0 :: rest)) a ess' ec' ∧
       ess'.flatten ++ ec' = (ess.flatten ++ ec).take (e0.index - a) ++ (e0 :: rest) := by
@@ -308,7 +315,7 @@ theorem LogRep.add_entries (hp : p.WF) (r : LogRep p s a ess ec) (e0 : Entry) (r
 
 /-- `AddEntries` into an empty log -/
 theorem LogRep.add_entries_empty (hp : p.WF) (r : LogRep p s a ess ec) (e0 : Entry) (rest : List Entry)
-    (hok : ∀ e ∈ e0 :: rest, e.OK ∧ e.Fits p) (hseq : Seq e0.index (e0 :: rest)) (hnil : ess.flatten ++ ec = []) :
+    (hok : ∀ e ∈ e0 :: rest, e.OK) (hseq : Seq e0.index (e0 :: rest)) (hnil : ess.flatten ++ ec = []) :
     ∃ ess' ec', LogRep p (addEntries p s (e0 :: rest)) e0.index ess' ec' ∧ ess'.flatten ++ ec' = e0 :: rest := by
   have hec : ec = [] := r.all_nil_iff.mp hnil
   have hess : ess = [] := r.curNe hec
@@ -317,7 +324,7 @@ theorem LogRep.add_entries_empty (hp : p.WF) (r : LogRep p s a ess ec) (e0 : Ent
   have hsg : slotGe p s e0.index = (none, none) := by simp [slotGe, r.cur.slotGe_nil, hf]
   have hcf : conflict p s e0.index = s := by simp [conflict, hsg]
   have r0 : LogRepW p s e0.index [] [] :=
-    ⟨by rw [hf]; exact Chain.nil p _, r.cur, Seq.nil _, r.next_eq, r.fidCur, r.fids, r.np, r.mtOK, (hok e0 (by simp)).1.index_pos⟩
+    ⟨by rw [hf]; exact Chain.nil p _, r.cur, Seq.nil _, r.next_eq, r.fidCur, r.fids, r.np, r.mtOK, (hok e0 (by simp)).index_pos⟩
   rw [addEntries_cons, hcf]
   simp only [addFrom]
   have hoff := r0.cur.next_offset
